@@ -36,6 +36,9 @@ SCRIPTS['g'] = ('(set-logic QF_BV)(declare-const x (_ BitVec 4))'
                 '(assert (= #b1 (bvor (bvcomp x y) ((_ extract 0 0) y))))'
                 '(assert (not (and p (xor q true))))(check-sat)')
 
+SCRIPTS['h'] = ('(declare-fun f0 (Bool) Bool)(declare-const p Bool)' + ''.join(
+    f'(assert (f{i} p))' for i in range(10)) + '(check-sat)')
+
 MUTSETS = {
     'late': ['SimplifySymbolNames', 'ReplaceByVariable'],
     'arith': ['ArithmeticSimplifyConstant'],
@@ -95,6 +98,7 @@ KEYS = {
     'e': ['x', '>', '<', '+', '*', 'check-sat'],
     'f': ['ca', 'a', 'b', '>', 'check-sat', 'Int'],
     'g': ['x', 'y', 'p', 'q', 'xor', 'bvcomp'],
+    'h': ['f1', 'f4', 'f8', 'f9', 'check-sat', 'declare-const'],
 }
 
 
